@@ -6,7 +6,7 @@ PROP, LEVEL = 'C01', 'exploration'
 
 
 def make_cases(tier, seed):
-    n = 400 if tier == 'quick' else 6000
+    n = 1000 if tier == 'quick' else 8000
     cases = []
     for i in range(n):
         r = gen.seeded(seed, 'C01', i)
